@@ -124,6 +124,35 @@ def strategy(tier):
     return _cases(tier)
 
 
+def directed_cases(tier):
+    """Two RF channels recorded at the same time (same subdirectory names; one name a character prefix of the other) plus a
+    metadata channel, copied / moved / linked channel by channel: properties only, a window that selects data of one channel
+    only, data without properties, a channel list that names nothing."""
+    t0 = 1500000000
+
+    def rfch(name, stamps):
+        return {"name": name, "kind": "rf", "S": 10, "F": 1000, "strays": [], "children": [],
+                "subdirs": [{"t": t, "files": [{"name": L.rf_name("rf", ms), "ms": ms} for ms in mss], "strays": []} for t, mss in stamps]}
+
+    tree = {"name": "top", "kind": "plain", "subdirs": [], "strays": [], "children": [
+        rfch("ch1", [(t0, [t0 * 1000, t0 * 1000 + 1000]), (t0 + 10, [(t0 + 10) * 1000])]),
+        rfch("ch10", [(t0, [t0 * 1000 + 2000]), (t0 + 10, [(t0 + 11) * 1000, (t0 + 12) * 1000])]),
+        {"name": "chC", "kind": "dmd", "S": 10, "F": 1000, "strays": [], "children": [],
+         "subdirs": [{"t": t0, "files": [{"name": L.dmd_name("metadata", t0 * 1000), "ms": t0 * 1000}], "strays": []}]}]}
+    base = {"tree": tree, "src": "top", "only": False, "reverse": False, "start": None, "end": None, "tfmt": "iso", "xdev": False,
+            "symlink": False, "arrive": None, "drf": True, "dmd": True, "drfprops": None, "dmdprops": None, "chform": "plain",
+            "destlink": False, "prelink": None, "predest": False, "rosrc": False}
+    out = []
+    for cmd in ("cp", "mv", "ln"):
+        for chs in ([["ch1", "ch10"]], [["ch10"], ["ch1"], ["chC"]]):
+            out.append(dict(base, cmd=cmd, chs=chs, drf=False, dmd=False, drfprops=True, dmdprops=True))          # properties only
+            out.append(dict(base, cmd=cmd, chs=chs, start=(t0 + 11) * 1000))                                        # data of ch10 only
+            out.append(dict(base, cmd=cmd, chs=chs, drfprops=False, dmdprops=False, start=(t0 + 10) * 1000))        # one subdirectory, no properties
+        out.append(dict(base, cmd=cmd, chs=[["ch9"]]))
+        out.append(dict(base, cmd=cmd, chs=None))
+    return out
+
+
 def fmt_time(ms, fmt):
     if fmt == "float":
         return "%d.%03d" % (ms // 1000, ms % 1000)
